@@ -64,16 +64,54 @@ def class_table(run, label, classes):
             classes[m["cls"]]["mismatched"] += 1
 
 
-def validate_part(run, b, label, n, extra, classes):
-    tr = run.record(b, "c15", n, label=label, extra=extra)
-    ok, mm = run.validate(*TRACE, tr, label=label)
-    class_table(run, label, classes)
+def count_distinct(run, tr):
     with open(tr) as f:
         for l in f:
             e = json.loads(l)
             if e.get("op") in QUERY_OPS:
                 run.distinct(key_of(e))
+
+
+def validate_part(run, b, label, n, extra, classes):
+    tr = run.record(b, "c15", n, label=label, extra=extra)
+    ok, mm = run.validate(*TRACE, tr, label=label)
+    class_table(run, label, classes)
+    count_distinct(run, tr)
     return tr, mm
+
+
+def validate_parts_parallel(run, b, parts, classes, jobs=4):
+    """Thorough tier: one TLC process per part, `jobs` at a time. The TLC runs are concurrent; all bookkeeping
+    (same as Run.validate) is done afterwards in this thread."""
+    from concurrent.futures import ThreadPoolExecutor
+    traces = [(label, run.record(b, "c15", n, label=label, extra=extra)) for (label, n, extra) in parts]
+    env = lambda tr: {"TRACE": tr, "JAVA_TOOL_OPTIONS": "-Dtlc2.tool.queue.IStateQueue=StateDeque"}
+    mod, cfg = (os.path.join(lib.SPEC, x) for x in TRACE)
+    with ThreadPoolExecutor(max_workers=jobs) as ex:
+        outs = list(ex.map(lambda lt: run._tlc(mod, cfg, 1, 3000, extra_env=env(lt[1]), tag="val_" + lt[0]), traces))
+    res = []
+    for (label, tr), (rc, txt, outp, dt) in zip(traces, outs):
+        if not ("TRACE-ACCEPTED" in txt and "No error has been found" in txt):
+            raise ToolError(f"trace validation did not complete for {tr} (rc={rc}); see {outp}\n" + lib._tail(txt))
+        evs = [json.loads(l) for l in open(tr)]
+        mm = [json.loads(json.loads(line)[9:]) for line in txt.splitlines() if line.startswith('"MISMATCH ')]
+        for m in mm:
+            m["direction"] = "trace"
+            m["source"] = os.path.relpath(tr, lib.ROOT)
+            if 1 <= m.get("i", 0) <= len(evs):
+                m["event"] = evs[m["i"] - 1]
+        sessions = sum(1 for e in evs if e.get("op") == "reset") + 1
+        run.mismatches += mm
+        run.cov["traces_validated_against_impl"] += sessions
+        run.cov["evaluations"] += len(evs)
+        run.cov["trace_runs"].append(dict(label=label, events=len(evs), sessions=sessions, mismatches=len(mm), wall_s=round(dt, 1)))
+        log(f"[validate] {label}: {len(evs)} events in {sessions} sessions, {len(mm)} mismatches, {dt:.1f}s")
+        class_table(run, label, classes)
+        for e in evs:
+            if e.get("op") in QUERY_OPS:
+                run.distinct(key_of(e))
+        res.append((tr, mm))
+    return res
 
 
 def negative_control_trace(run, tr, mm):
@@ -161,10 +199,8 @@ def run(run):
         first = (tr, mm)
     else:
         # every Zone/Link name of tzdata.zi, in parts (one TLC process per part, four at a time)
-        from concurrent.futures import ThreadPoolExecutor
         nparts = 16
-        with ThreadPoolExecutor(max_workers=4) as ex:
-            res = list(ex.map(lambda p: validate_part(run, b, f"lookup{p:02d}", 100000, ("lookup", p, nparts), classes), range(nparts)))
+        res = validate_parts_parallel(run, b, [(f"lookup{p:02d}", 100000, ("lookup", p, nparts)) for p in range(nparts)], classes)
         first = res[0]
     negative_control_trace(run, *first)
     run.cov["classes"] = {k: v for k, v in sorted(classes.items())}
